@@ -2529,7 +2529,21 @@ impl<'a> Socket<'a> {
             // now for whatever reason (like zero window), this avoids an
             // infinite polling loop where `poll_at` returns `Now` but `dispatch`
             // can't actually do anything.
-            self.timer.set_for_idle(cx.now(), self.keep_alive);
+            //
+            // The unacknowledged octets must not be left without any timer, though:
+            //  * a fast retransmit does not replace the retransmission timer, it only
+            //    resends one segment early, so the timer keeps running (restarted);
+            //  * after a timeout against a closed window nothing can be resent, so we
+            //    fall back to probing the window;
+            //  * otherwise the rewound data is sent right below, which re-arms the timer.
+            let rto = self.rtte.retransmission_timeout();
+            if matches!(self.timer, Timer::FastRetransmit) {
+                self.timer.set_for_retransmit(cx.now(), rto);
+            } else if self.remote_win_len == 0 && !self.tx_buffer.is_empty() {
+                self.timer.set_for_zero_window_probe(cx.now(), rto);
+            } else {
+                self.timer.set_for_idle(cx.now(), self.keep_alive);
+            }
 
             // Inform RTTE, so that it can avoid bogus measurements.
             self.rtte.on_retransmit();
